@@ -18,7 +18,9 @@ Clause of the property text                     theorem(s)
   phase split sends each phase to its outlet    phaseSplit_rows, phaseSplit_error_iff
   splits × mixed = first stream                 splits_roundtrip, splits_range
   balance solver                                balance_solves, balance_factors_unique (balance_total_statement: not proved)
-  outlets are inputs too (no stale leak)        partition_ignores_outlets; partitionAsIs_counterexample (code as found)
+  outlets are inputs too (no stale leak)        partition_ignores_outlets; partitionAsIs_counterexample (code as found);
+                                                reused multi_stream holder: lle_ignores_holder, vle_ignores_holder,
+                                                holderLoad_total, lleFull_balance, vleFull_balance
 -/
 namespace ThermoVerif.Props.C20
 open ThermoVerif.Separations
@@ -730,6 +732,53 @@ theorem vle_nonneg (n : Nat) (rowg rowl : Vec) (hg : ∀ i, 0 ≤ rowg.at i) (hl
   constructor <;> split <;> first | exact hg i | exact hl i | exact le_refl _
 
 example : lleWrap 2 [2, 2] [1, 0] [1, 2] false (some 1) (some 2) (1/2) = ([1, 3/2], [1, 1/2]) := by decide +kernel
+
+/-! ### the reused `multi_stream=` holder -/
+
+/-- loading the feed into the holder does not depend on what the holder held -/
+theorem holderLoad_ignores_holder (n : Nat) (h h' : Vec × Vec) (feed : Vec) :
+    holderLoad n h feed = holderLoad n h' feed := rfl
+
+/-- the loaded rows together are exactly the feed -/
+theorem holderLoad_total (n : Nat) (h : Vec × Vec) (feed : Vec) (i : Nat) (hi : i < n) :
+    (holderLoad n h feed).1.at i + (holderLoad n h feed).2.at i = feed.at i := by
+  simp [holderLoad, at_tab hi]
+
+/-- **lle_ignores_holder** — a whole `lle` call, for every equilibrium routine `eqm`, gives the same outlets
+whatever the `multi_stream` holder held before the call -/
+theorem lle_ignores_holder (n : Nat) (h h' : Vec × Vec) (feed : Vec) (eqm : Vec × Vec → Vec × Vec) (tc : Bool)
+    (rho_l rho_L : Option Rat) (e : Rat) :
+    lleFull n h feed eqm tc rho_l rho_L e = lleFull n h' feed eqm tc rho_l rho_L e := rfl
+
+theorem vle_ignores_holder (n : Nat) (h h' : Vec × Vec) (feed : Vec) (eqm : Vec × Vec → Vec × Vec) :
+    vleFull n h feed eqm = vleFull n h' feed eqm := rfl
+
+/-- an equilibrium routine that conserves every chemical of what it is given (property C03) -/
+def Conserves (n : Nat) (eqm : Vec × Vec → Vec × Vec) : Prop :=
+  ∀ (r : Vec × Vec) (i : Nat), i < n → (eqm r).1.at i + (eqm r).2.at i = r.1.at i + r.2.at i
+
+/-- **balance of a whole call with a reused holder** — for every conserving equilibrium routine, every previous
+holder content, efficiency, top-phase choice: `top + bottom = feed` -/
+theorem lleFull_balance (n : Nat) (h : Vec × Vec) (feed : Vec) (eqm : Vec × Vec → Vec × Vec) (hc : Conserves n eqm)
+    (tc : Bool) (rho_l rho_L : Option Rat) (e : Rat) (i : Nat) (hi : i < n) :
+    (lleFull n h feed eqm tc rho_l rho_L e).1.at i + (lleFull n h feed eqm tc rho_l rho_L e).2.at i = feed.at i := by
+  have h1 := hc (holderLoad n h feed) i hi
+  have h2 := holderLoad_total n h feed i hi
+  have hrow : (eqm (holderLoad n h feed)).1.at i + (eqm (holderLoad n h feed)).2.at i = feed.at i := by linarith
+  unfold lleFull lleWrap
+  by_cases hcz : lleTopIsSmallL tc rho_l rho_L = true <;> simp only [hcz, if_true, if_false, Bool.false_eq_true] <;>
+    simp only [effMix_at _ _ _ _ _ hi] <;> split <;> first | linarith | (rw [← hrow]; ring)
+
+theorem vleFull_balance (n : Nat) (h : Vec × Vec) (feed : Vec) (eqm : Vec × Vec → Vec × Vec) (hc : Conserves n eqm)
+    (i : Nat) (hi : i < n) : (vleFull n h feed eqm).1.at i + (vleFull n h feed eqm).2.at i = feed.at i := by
+  have h1 := hc (holderLoad n h feed) i hi
+  have h2 := holderLoad_total n h feed i hi
+  simp only [vleFull, vleWrap, at_tab hi]
+  linarith
+
+/-- non-vacuity: the identity "equilibrium" conserves, and a stale holder changes nothing -/
+example : Conserves 2 id := fun _ _ _ => rfl
+example : lleFull 2 ([5, 5], [1, 2]) [2, 2] id false (some 1) (some 2) (1/2) = lleFull 2 ([], []) [2, 2] id false (some 1) (some 2) (1/2) := rfl
 
 /-! ## phase_split -/
 
